@@ -16,7 +16,7 @@ from engine import refpoly as R
 ID = "C18"
 LEVEL = "exploration"
 WORKERS = {"quick": 8, "thorough": 12}
-RULE = ("all edges of the conversion registry (enumerated at run time) x {L1,L2 (+L4 for substitutions)} x mu x degree: edge executes, both-direction edges compose to identity, "
+RULE = ("all ordered pairs of form requests on one freshly built pipeline, all forms compared afterwards with a canonically asked pipeline; all edges of the conversion registry (enumerated at run time) x {L1,L2 (+L4 for substitutions)} x mu x degree: edge executes, both-direction edges compose to identity, "
         "substituted polynomial at x equals the original at the transformed x on a coordinate lattice; arbitrary polynomials = every monomial of degree <= 3 alone + dense fills; "
         "point maps composed with their inverses on the lattice; non-trivial = edge / substitution evaluated on a non-zero polynomial; distinct = (point, mu, degree, edge|substitution, polynomial)")
 ASSUMPTIONS = [
@@ -25,6 +25,8 @@ ASSUMPTIONS = [
 ]
 
 _L = {}
+# form names of the conversion registry (k_request_history checks at run time that this list is the registry's)
+FORMS = ['center_manifold_complex', 'center_manifold_real', 'complex_full_normal', 'complex_modal', 'complex_partial_normal', 'physical', 'real_full_normal', 'real_modal', 'real_partial_normal']
 
 
 def worker_init():
@@ -239,7 +241,51 @@ def k_subst(params):
     return res(evals=n, nontrivial=n, viol=list(viol.values()), sample={"tag": tag, "polynomials": len(polys), "substitutions": list(subs)})
 
 
-KINDS = {"edges": k_edges, "subst": k_subst}
+def k_request_history(params):
+    """every ordered pair of form requests (first, b) on a freshly built pipeline; afterwards every form of that pipeline must equal the form
+    obtained from a pipeline that was asked in canonical order (the one kinds `edges` / `subst` verify)"""
+    system = _L["System"].from_mu(params["mu"])
+    pt = system.get_libration_point(params["point"])
+    deg = params["degree"]
+    ref_pipe = _L["CM"](pt, deg).dynamics.pipeline
+    reg = ref_pipe.registry._CONVERSION_REGISTRY
+    forms = sorted({s for s, _ in reg.keys()} | {d for _, d in reg.keys()})
+    if forms != sorted(FORMS):
+        raise RuntimeError("the conversion registry's forms %s are not the list the case generator uses" % forms)
+    ref = {}
+    for f in forms:
+        try:
+            ref[f] = [np.array(a) for a in ref_pipe.get_hamiltonian(f).poly_H]
+        except Exception:
+            pass
+    viol = {}
+    n = nt = 0
+    first = params["first"]
+    if first not in ref:
+        return res(evals=1, nontrivial=0, sample={"first": first, "outcome": "form not produced by the pipeline"})
+    for b in [None] + [f for f in forms if f in ref]:
+        seq = [first] + ([b] if b is not None else [])
+        system2 = _L["System"].from_mu(params["mu"])
+        pipe = _L["CM"](system2.get_libration_point(params["point"]), deg).dynamics.pipeline
+        tag = "mu=%g L%d degree=%d, forms requested in the order %s on one pipeline" % (params["mu"], params["point"], deg, seq)
+        try:
+            for f in seq:
+                pipe.get_hamiltonian(f)
+            got = {f: pipe.get_hamiltonian(f).poly_H for f in ref}
+        except Exception as exc:
+            viol.setdefault("history/raises", violation("history/raises", "%s: %s [%s]" % (type(exc).__name__, str(exc)[:140], tag), None, None, ("request_history", params)))
+            continue
+        for f in ref:
+            n += 1
+            nt += 1
+            d, sc = _coeff_diff(got[f], ref[f])
+            if d > 1e-12 * sc:
+                key = "history/form_depends_on_request_order/%s" % f
+                viol.setdefault(key, violation(key, "form %s differs by %.3e (scale %.3e) from the same form of a pipeline asked in canonical order [%s]" % (f, d, sc, tag), d, 0.0, ("request_history", params)))
+    return res(evals=n, nontrivial=nt, viol=list(viol.values()), sample={"first": first, "forms": list(ref), "histories": len(ref) + 1})
+
+
+KINDS = {"edges": k_edges, "subst": k_subst, "request_history": k_request_history}
 
 
 def cases(tier, seed):
@@ -254,4 +300,9 @@ def cases(tier, seed):
         for Ln in (1, 2, 4):
             for deg in ([3, 4] if tier == "quick" else [2, 3, 4, 6]):
                 out.append(("subst", {"mu": mu, "point": Ln, "degree": deg, "off": o[0], "with_pipeline": True}))
+    # request histories: all ordered pairs of forms on one pipeline (the form names are enumerated at run time; unknown ones are skipped and counted)
+    for first in FORMS:
+        out.append(("request_history", {"mu": 0.01215, "point": 1, "degree": 4, "first": first}))
+        if tier != "quick":
+            out.append(("request_history", {"mu": 9.5e-4, "point": 2, "degree": 6, "first": first}))
     return out
